@@ -19,6 +19,8 @@ def run(ctx, rep):
     runloop.r12i(ctx, rep)
     runloop.r12j(ctx, rep)
     runloop.r07h(ctx, rep, rule="R12k")
+    runloop.r12l(ctx, rep)
+    runloop.r07i(ctx, rep, rule="R12m")
     rep.note("observation (not armed): jump targets are encoded as VCell::Ptr and marked as if heap indices — "
              "conservative retention of at most bc.len() low-numbered cells per lambda; bounded")
     rep.not_decided += ["heap growth over unbounded executions", "leaks through over-marking that grow with work"]
